@@ -279,6 +279,7 @@ func gen(r *vh.Rand, tier string) []string {
 	}
 	out = append(out, cfghdrsBoundary()...)
 	out = append(out, wfileBoundary()...)
+	out = append(out, sfileBoundary()...)
 	out = append(out, tfuncCases()...)
 	out = append(out, noSourceCases()...)
 	formats := []string{"uri", "uripost", "raw", "json"}
